@@ -87,14 +87,6 @@ class CSVTracksBuilder(TracksBuilder):
             else source.copy()  # Make a copy to avoid modifying original
         )
 
-        # Validate that 'id' column contains unique values
-        if "id" in df.columns and not df["id"].is_unique:
-            raise ValueError("The 'id' column must contain unique values")
-
-        # Ensure integer IDs (convert string IDs to integers if needed)
-        if "id" in df.columns and "parent_id" in df.columns:
-            df = _ensure_integer_ids(df)
-
         # For backward compatibility, extend node_name_map with node_features
         # Only add features that should be loaded (recompute=False)
         extended_name_map = dict(node_name_map)
@@ -111,6 +103,15 @@ class CSVTracksBuilder(TracksBuilder):
             if source_col in df.columns and target_key not in new_df_data:
                 new_df_data[target_key] = df[source_col].copy()
         df = pd.DataFrame(new_df_data)
+
+        # Validate that 'id' column contains unique values
+        # (after renaming, so that it also applies to mapped column names)
+        if "id" in df.columns and not df["id"].is_unique:
+            raise ValueError("The 'id' column must contain unique values")
+
+        # Ensure integer IDs (convert string IDs to integers if needed)
+        if "id" in df.columns and "parent_id" in df.columns:
+            df = _ensure_integer_ids(df)
 
         # Convert NaN to None
         df = df.map(lambda x: None if pd.isna(x) else x)
